@@ -259,6 +259,7 @@ pub fn scenarios(thorough: bool) -> Vec<Scenario> {
         sc.prologue = vec![Op::Upd(0, 0), Op::Commit(0, 0), Op::Upd(0, 1), Op::Commit(0, 1), Op::Upd(0, 2), Op::Commit(0, 0)];
         v.push(sc);
     }
+    v.push(uneven_heads_scenario("pair-heads-9-and-10", if thorough { 4 } else { 3 }, &[]));
     v.extend(cross_scenarios(thorough));
     v
 }
